@@ -12,7 +12,8 @@
    Data dependent calls (the empty-folder purge after a batch delete, the directories a
    listing descends into) are given as candidate sets (`candidates`).
    Trigger sets: `req_climbs` / `req_enters_uploads` (a lexical walk, `escapes`, over the
-   strings a route builds its paths from), `bad_bucket`; the first,
+   strings a route builds its paths from), `odd_bucket` (a "%" in the bucket name; the
+   names the router refuses, `router_refuses`, reach no handler: `calls` = []); the first,
    purely syntactic ones (`req_dotdot`, `req_uploads_seg`) are kept for the corollaries
    in proof/S3PathsCompat.v.
    Executable definitions only; proofs are in proof/S3PathsProofs.v. *)
@@ -212,6 +213,43 @@ Definition http_get_ok (fx : fixture) (p : string) : bool :=
        | None => false
        end.
 
+(* ---------- the gateway router's {bucket} matcher ---------- *)
+
+Fixpoint no_pct (s : string) : bool :=
+  match s with EmptyString => true | String c r => negb (Ascii.eqb c "%"%char) && no_pct r end.
+
+Definition dot : ascii := "."%char.
+
+(* registerRouter: apiRouter.PathPrefix(`/{bucket:[^/.][^/]*|\.[^/.][^/]*|\.\.[^/]+}`), matched
+   (anchored on both sides of the segment: the next template character is "/" or the end)
+   against the DECODED request path, alternative by alternative *)
+Definition bucket_pattern (b : string) : bool :=
+  match b with
+  | EmptyString => false
+  | String c r =>
+      if negb (Ascii.eqb c slash) && negb (Ascii.eqb c dot) then no_slash r          (* [^/.][^/]* *)
+      else if Ascii.eqb c dot then
+        match r with
+        | EmptyString => false
+        | String d r' =>
+            if negb (Ascii.eqb d slash) && negb (Ascii.eqb d dot) then no_slash r'   (* \.[^/.][^/]* *)
+            else if Ascii.eqb d dot then negb (r' =? "") && no_slash r'              (* \.\.[^/]+ *)
+            else false
+        end
+      else false
+  end.
+
+(* the same set, said directly: no handler is reached for the bucket names "", "." and ".."
+   (and a mux variable never holds a "/"); proof/S3PathsProofs.v: bucket_pattern_spec *)
+Definition router_refuses (b : string) : bool :=
+  (b =? "") || (b =? ".") || (b =? "..") || negb (no_slash b).
+
+(* finding 2: a bucket name with a "%" (the router accepts it) *)
+Definition odd_bucket (b : string) : bool := negb (no_pct b).
+
+(* not an ordinary name: refused by the router, or odd *)
+Definition bad_bucket (b : string) : bool := router_refuses b || odd_bucket b.
+
 (* ---------- requests ---------- *)
 
 Inductive route :=
@@ -376,7 +414,17 @@ Definition create_file_ok (fx : fixture) (d n : string) : bool :=
   parents_ok fx (rev (create_parents p)) &&
   match fx_find fx p with Some true => false | _ => true end.
 
-Definition calls (fx : fixture) (q : req) : list ccall :=
+(* GET / HEAD / PUT / DELETE object and the POST upload proxy to the filer's HTTP side with
+   the URL  "http://" + filer + BucketsPath + "/" + bucket + urlPathEscape(object): only the
+   key is escaped, so http.NewRequest (url.Parse) decodes the bucket part once more; a bad
+   escape in it fails NewRequest and nothing is sent *)
+Definition obj_url_path (b object : string) : option string :=
+  match pct_decode (bucket_dir b) with Some d => Some (d ++ object) | None => None end.
+Definition obj_http (m : meth) (b object : string) : list fcall :=
+  match obj_url_path b object with Some p => http_calls m p | None => [] end.
+
+(* what the HANDLER of a route does once the router has handed it the bucket name *)
+Definition handler_calls (fx : fixture) (q : req) : list ccall :=
   let b := q_bucket q in
   let object := norm_object (q_object q) in
   let key := trim_leading_slash object in       (* objectKey *)
@@ -384,10 +432,10 @@ Definition calls (fx : fixture) (q : req) : list ccall :=
   match q_route q with
   | RPut =>
       if ends_with_slash object then within b [GCreate buckets_path (b ++ object) true]
-      else within b (http_calls MPut opath)
-  | RGet => if ends_with_slash object then [] else within b (http_calls MGet opath)
-  | RHead => within b (http_calls MHead opath)
-  | RDelete => within b (http_calls MDelete opath)
+      else within b (obj_http MPut b object)
+  | RGet => if ends_with_slash object then [] else within b (obj_http MGet b object)
+  | RHead => within b (obj_http MHead b object)
+  | RDelete => within b (obj_http MDelete b object)
   | RBatchDelete =>
       within b (map (fun k => let '(d, n) := batch_dir_name b k in GDelete d n false) (q_keys q))
   | RCopy replace =>
@@ -481,11 +529,15 @@ Definition calls (fx : fixture) (q : req) : list ccall :=
   | RPostPolicy =>
       (* repaired (fix: POST policy upload must keep the bucket and the form key apart):
          uploadUrl = BucketsPath + "/" + bucket + "/" + urlPathEscape(TrimPrefix(key, "/")) *)
-      within b (http_calls MPut (bucket_dir b ++ norm_object (q_object q)))
+      within b (obj_http MPut b (norm_object (q_object q)))
   end.
 
+(* the router in front: a bucket name it refuses reaches no handler (404, no filer call) *)
+Definition calls (fx : fixture) (q : req) : list ccall :=
+  if router_refuses (q_bucket q) then [] else handler_calls fx q.
+
 (* the data dependent calls a request may make besides `calls` *)
-Definition candidates (fx : fixture) (q : req) : list fcall :=
+Definition handler_candidates (fx : fixture) (q : req) : list fcall :=
   match q_route q with
   | RBatchDelete => purge_candidates (q_bucket q) (q_keys q)
   | RList _ prefix marker _ =>
@@ -493,6 +545,8 @@ Definition candidates (fx : fixture) (q : req) : list fcall :=
         (marker_heads (String.length marker) (list_req_dir (q_bucket q) prefix) marker)
   | _ => []
   end.
+Definition candidates (fx : fixture) (q : req) : list fcall :=
+  if router_refuses (q_bucket q) then [] else handler_candidates fx q.
 
 (* ---------- containment ---------- *)
 
@@ -509,7 +563,8 @@ Definition call_contained (c : ccall) : bool :=
 
 Definition all_contained (fx : fixture) (q : req) : bool :=
   forallb call_contained (calls fx q) &&
-  forallb (fun c => call_contained (q_bucket q, c)) (purge_candidates (q_bucket q) (q_keys q)).
+  (router_refuses (q_bucket q) ||
+   forallb (fun c => call_contained (q_bucket q, c)) (purge_candidates (q_bucket q) (q_keys q))).
 
 (* the data dependent calls (purge after a batch delete, descent of a listing) *)
 Definition candidates_contained (fx : fixture) (q : req) : bool :=
@@ -545,10 +600,6 @@ Definition has_dotdot (s : string) : bool := has_seg ".." s.
 
 Definition dec1 (s : string) : string := match pct_decode s with Some t => t | None => s end.
 
-Fixpoint no_pct (s : string) : bool :=
-  match s with EmptyString => true | String c r => negb (Ascii.eqb c "%"%char) && no_pct r end.
-Definition bad_bucket (b : string) : bool :=
-  (b =? "") || (b =? ".") || (b =? "..") || negb (no_slash b) || negb (no_pct b).
 
 (* the copy source as the copy handlers address it *)
 Definition src_bucket (q : req) : string := fst (src_bucket_object (dec1 (q_src q))).
